@@ -286,7 +286,9 @@ def main():
         return replay_cmd(sys.argv[3])
     if len(sys.argv) >= 5 and sys.argv[3] == "--replay":
         return replay_cmd(sys.argv[4])
-    tier = os.environ.get("VERIF_TIER", tier)
+    # the tier named on the command line wins; VERIF_TIER only fills in when none was given
+    if tier not in ("quick", "thorough"):
+        tier = os.environ.get("VERIF_TIER", "quick")
     seed = int(os.environ.get("VERIF_SEED", "1"))
     t0 = time.time()
     cfg = PROPS[prop]
@@ -307,7 +309,8 @@ def main():
             extract = {"errors": ["extractor crashed: " + (err or out)[-400:]]}
         # a translation that failed is a broken obligation only for the properties that use it
         RELEVANT = {"structure": {"C13", "C14"}, "abi": {"C15", "C07", "C04"},
-                    "fns-nanbox": {"C06", "C11"}, "fns-logs": {"C05"}, "fns-state": {"C03", "C02"}}
+                    "fns-nanbox": {"C06", "C11"}, "fns-logs": {"C05"}, "fns-state": {"C03", "C02"},
+                    "markers": {"C01", "C08", "C11"}}
         rel_errors = [e for e in extract.get("errors", [])
                       if prop in RELEVANT.get(e.split(":")[0], {prop})]
         for e in rel_errors:
